@@ -32,10 +32,13 @@ def exec_case(case):
     g = dict(case["given"])
     events = []
     for ev in case["events"]:
-        e = {"op": "tutte", "mode": ev["mode"], "cotan": ev["cotan"], "exc": "", "uvV": [], "uvC": [], "bq": [], "sg": []}
+        e = {"op": "tutte", "mode": ev["mode"], "cotan": ev["cotan"], "after_other": ev.get("after_other", 0), "exc": "", "uvV": [], "uvC": [], "bq": [], "sg": []}
         try:
             m = meshes.build_surface(len(g["P"]), g["F"], coords=g["P"])
             g["E"] = [[int(a), int(b)] for a, b in m.edges]
+            if ev.get("after_other", 0):
+                # history: the same mesh object was embedded before with the OTHER weights (whatever that run left on the mesh must not leak)
+                M.parametrization.TutteEmbedding(m, boundary_mode=ev["mode"], use_cotan=not bool(ev["cotan"]), save_on_corners=False).run()
             tv = M.parametrization.TutteEmbedding(m, boundary_mode=ev["mode"], use_cotan=bool(ev["cotan"]), save_on_corners=False)
             tv.run()
             uv = [np.asarray(tv.uvs[i], dtype=float) for i in range(len(m.vertices))]
@@ -108,7 +111,7 @@ def run(ctx):
     shapes.append(("annulus", [[0, 0, 0], [6, 0, 0], [3, 6, 0], [2, 1, 0], [4, 1, 0], [3, 3, 0]], [[0, 1, 3], [1, 4, 3], [1, 2, 4], [2, 5, 4], [2, 0, 5], [0, 3, 5]]))
     cases = []
     for i, (fam, P, F) in enumerate(shapes):
-        evs = [{"mode": md, "cotan": ct} for md in ("circle", "square") for ct in (0, 1)]
+        evs = [{"mode": md, "cotan": ct, "after_other": ao} for md in ("circle", "square") for ct in (0, 1) for ao in (0, 1) if ao == 0 or ct == 0 or md == "circle"]
         cases.append({"id": "%s-%d" % (fam, i), "given": {"P": P, "F": F, "family": fam.split("-")[0]}, "events": evs})
     obs = ctx.execute("c17", "exec_case", cases, chunksize=4)
     ctx.judge("C17_Trace", "C17_Trace.cfg", obs, "tutte", "c17", "exec_case", batch_events=60)
